@@ -348,6 +348,31 @@ Qed.
 
 (* ---------- select_holdout ---------- *)
 
+(* select_holdout as read from the source: the inertia guard with the generated comparison *)
+Definition interp_select (g : select) (c : cfg) (st : state) (z : nat) : res nat :=
+  if ((se_zoops_guard_lhs g =? "self.step")%string && (se_zoops_guard_rhs g =? "self.inertia")%string
+      && se_zoops_seed_choose g && (se_uniform_lo g =? 0)%Z
+      && (se_uniform_hi g =? "self.starts.len()")%string)%bool then
+    let n := length (st_starts st) in
+    let uniform :=
+      if (n =? 0)%nat then Panic 6
+      else if (z <? n)%nat then Ok z else Err 3 in
+    match cMode c with
+    | Zoops =>
+        if cmp_N (se_zoops_guard_cmp g) (st_step st) (cInertia c) then
+          match cSeed c with
+          | [] => Panic 5
+          | _ => if existsb (Nat.eqb z) (cSeed c) then Ok z else Err 3
+          end
+        else uniform
+    | Oops => uniform
+    end
+  else Err 99.
+
+Theorem gen_select_holdout_is_model : forall c st z,
+  interp_select gen_select c st z = select_holdout c st z.
+Proof. intros c st z. reflexivity. Qed.
+
 Theorem gen_select_is_model :
   (forall c st,
      cmp_N (se_zoops_guard_cmp gen_select) (st_step st) (cInertia c) = (st_step st <? cInertia c)) /\
